@@ -365,7 +365,21 @@ inline bool operator<= (const Tracked &a, const Tracked &b) { return a.v <= b.v;
 inline bool operator>  (const Tracked &a, const Tracked &b) { return a.v >  b.v; }
 inline bool operator>= (const Tracked &a, const Tracked &b) { return a.v >= b.v; }
 
-struct Triv { int v; Triv () = default; /* implicit */ Triv (int x) : v (x) { } };
+#ifndef CFG_SPACESHIP
+#define CFG_SPACESHIP 0
+#endif
+#if CFG_SPACESHIP && defined (__cpp_impl_three_way_comparison)
+#include <compare>
+#endif
+struct Triv
+{
+  int v;
+  Triv () = default;
+  /* implicit */ Triv (int x) : v (x) { }
+#if CFG_SPACESHIP && defined (__cpp_impl_three_way_comparison)
+  friend auto operator<=> (const Triv &a, const Triv &b) { return a.v <=> b.v; }
+#endif
+};
 inline bool operator== (const Triv &a, const Triv &b) { return a.v == b.v; }
 inline bool operator!= (const Triv &a, const Triv &b) { return a.v != b.v; }
 inline bool operator<  (const Triv &a, const Triv &b) { return a.v <  b.v; }
@@ -720,7 +734,7 @@ static int store_of (const V &v)
 }
 
 template <typename V>
-static bool views_agree (V &v)
+static int views_agree (V &v)     // bit 0: member views contiguous / consistent; bit 1: non-member twins agree
 {
   // contiguity, iterator flavours, non-member twins
   const V &cv = v;
@@ -746,7 +760,10 @@ static bool views_agree (V &v)
   if (n > 0)
     ok = ok && (&v.front () == v.data ()) && (&v.back () == v.data () + (n - 1))
             && (&cv.front () == v.data ()) && (&cv.back () == v.data () + (n - 1));
+  bool nm = true;
 #if ! CFG_VECTOR
+  bool mem_ok = ok;
+  ok = true;
   using gch::begin; using gch::end; using gch::cbegin; using gch::cend;
   using gch::rbegin; using gch::rend; using gch::crbegin; using gch::crend;
   using gch::size; using gch::empty; using gch::data;
@@ -759,8 +776,10 @@ static bool views_agree (V &v)
   ok = ok && size (v) == v.size () && empty (v) == v.empty ();
   ok = ok && data (v) == v.data () && data (cv) == cv.data ();
   ok = ok && static_cast<sz_t> (gch::ssize (v)) == v.size ();
+  nm = ok;
+  ok = mem_ok;
 #endif
-  return ok;
+  return (ok ? 1 : 0) | (nm ? 2 : 0);
 }
 
 static long clamp30 (unsigned long long x) { return x > 0x3fffffffULL ? 0x3fffffffL : static_cast<long> (x); }
@@ -776,11 +795,12 @@ static void probe_one (FILE *f, V &v)
   unsigned long long lim = n > 4096 ? 4096 : n;    // long-run stimuli: log a prefix only
   for (unsigned long long i = 0; i < lim; ++i)
     fprintf (f, "%s[%d,%d]", i ? "," : "", val_of (v.data ()[i]), mf_of (v.data ()[i]));
-  fprintf (f, "],\"sz\":%ld,\"cap\":%ld,\"st\":%d,\"al\":%d,\"inl\":%s,\"inlb\":%s,\"max\":%ld,\"icap\":%ld,\"ok\":%s}",
+  int va = n <= 4096 ? views_agree (v) : 3;
+  fprintf (f, "],\"sz\":%ld,\"cap\":%ld,\"st\":%d,\"al\":%d,\"inl\":%s,\"inlb\":%s,\"max\":%ld,\"icap\":%ld,\"ok\":%s,\"nm\":%s}",
            clamp30 (n), clamp30 (v.capacity ()), st, alloc_id (v.get_allocator ()),
            v.inlined () ? "true" : "false", v.inlinable () ? "true" : "false",
            clamp30 (v.max_size ()), clamp30 (V::inline_capacity ()),
-           (n <= 4096 ? views_agree (v) : true) ? "true" : "false");
+           (va & 1) ? "true" : "false", (va & 2) ? "true" : "false");
   g_logging = l; g_inj.armed = a;
 }
 
